@@ -58,6 +58,7 @@ type Ctx struct {
 	byPath     map[string]*packages.Package
 	Obl        []*Obligation
 	floors     []floor
+	required   []string
 	Explain    []string // what the rules decide / do not decide
 	NotDecided []string
 	Assume     []string
@@ -212,6 +213,13 @@ func (c *Ctx) Check(cond bool, rule, key string, p token.Pos, okDetail, badDetai
 // analysis went blind and the check fails.
 func (c *Ctx) Floor(rule string, min int) { c.floors = append(c.floors, floor{rule, min}) }
 
+// Require declares an obligation (by its full key "RULE/key") that the reference tree produces and
+// that stands for something the property needs (a value that must be stored, a guard that must
+// exist): when no obligation with that key is produced any more - the statement was deleted, or
+// moved where the rule does not find it - the check fails as undecided instead of passing with one
+// obligation fewer.
+func (c *Ctx) Require(keys ...string) { c.required = append(c.required, keys...) }
+
 func (c *Ctx) Decides(s string)       { c.Explain = append(c.Explain, s) }
 func (c *Ctx) DoesNotDecide(s string) { c.NotDecided = append(c.NotDecided, s) }
 
@@ -274,6 +282,22 @@ func (c *Ctx) finish(runErr error) int {
 	for _, f := range c.floors {
 		if cnt[f.rule] < f.min {
 			c.Undecided("FLOOR", f.rule, token.NoPos, fmt.Sprintf("rule %s matched %d instances, fewer than the %d confirmed by hand: the analysis no longer sees its subject", f.rule, cnt[f.rule], f.min))
+		}
+	}
+	c.referenceCounts()
+	if len(c.required) > 0 {
+		have := map[string]bool{}
+		for _, o := range c.Obl {
+			have[o.Key] = true
+		}
+		for _, k := range c.required {
+			if !have[k] {
+				rule := k
+				if i := strings.Index(k, "/"); i > 0 {
+					rule = k[:i]
+				}
+				c.Undecided("REQUIRED", k, token.NoPos, fmt.Sprintf("the obligation %s, produced on the reference tree, is no longer produced: what it stands for (rule %s) was deleted or moved where the rule does not find it", k, rule))
+			}
 		}
 	}
 	sort.SliceStable(c.Obl, func(i, j int) bool {
